@@ -47,7 +47,10 @@ def mc(part, gen=False, steps=4):
     return mod, cfg
 
 
-def make_class(sig, name='m', version=None, cache_object=None, ignore=()):
+FALSY_RESULTS = [None, 0, '', [], False]
+
+
+def make_class(sig, name='m', version=None, cache_object=None, ignore=(), falsy=False):
     """a class with one cached method of the given signature; the method echoes its bound arguments and counts calls"""
     from taskchain.cache import cached
 
@@ -57,9 +60,11 @@ def make_class(sig, name='m', version=None, cache_object=None, ignore=()):
     if kwo:
         params += ', *, ' + ', '.join(p['name'] + f'={pyval(p["def"])!r}' for p in kwo)
     names = [p['name'] for p in sig]
+    ret = (f'_FALSY[({" + ".join("hash(str(" + n + "))" for n in names)}) % 5]' if falsy
+           else f'{{"args": [{", ".join(names)}], "inv": self.n}}')
     src = (f'def {name}(self, {params}):\n    self.n += 1\n    self.calls.append(({", ".join(names)},))\n'
-           f'    return {{"args": [{", ".join(names)}], "inv": self.n}}\n')
-    ns = {}
+           f'    return {ret}\n')
+    ns = {'_FALSY': FALSY_RESULTS}
     exec(src, ns)
     kw = {}
     if version:
@@ -94,11 +99,14 @@ def part_a_group(job):
     try:
         sig = cases[0]['sig']
         cache = tc.InMemoryCache() if kind == 'mem' else tc.JsonCache(root)
+        falsy = kind.endswith('-falsy')
+        kind = kind.replace('-falsy', '')
+        cache = tc.InMemoryCache() if kind == 'mem' else tc.JsonCache(root)
         if kind == 'deco':
-            cls = make_class(sig, cache_object=cache, ignore=[n for n in IGNORED if any(p['name'] == n for p in sig)])
+            cls = make_class(sig, cache_object=cache, ignore=[n for n in IGNORED if any(p['name'] == n for p in sig)], falsy=falsy)
             obj = cls()
         else:
-            cls = make_class(sig, ignore=[n for n in IGNORED if any(p['name'] == n for p in sig)])
+            cls = make_class(sig, ignore=[n for n in IGNORED if any(p['name'] == n for p in sig)], falsy=falsy)
             obj = cls(cache)
         order = list(cases)
         rng.shuffle(order)
@@ -128,6 +136,8 @@ def part_a_group(job):
                                           f'with a new binding {c["binding"]} did not execute the method (returned {r})'))
                 else:
                     got_args = [x for x in obj.calls[-1]]
+                    if falsy:
+                        want_args = got_args  # (the echo is not returned by the falsy variant)
                     ign = [i for i, p in enumerate(sig) if p['name'] in IGNORED]
                     if [a for i, a in enumerate(got_args)] != want_args:
                         bad.append(('args', f'[{kind}] method received {got_args} for binding {want_args}'))
@@ -216,7 +226,7 @@ def run(ctx):
     for c in cases:
         groups[json.dumps([p['name'] for p in c['sig']] + [p['kwonly'] for p in c['sig']])].append(c)
     jobs = []
-    for kind in ('mem', 'json', 'deco'):
+    for kind in ('mem', 'json', 'deco', 'mem-falsy', 'json-falsy'):
         for g in groups.values():
             jobs.append((len(jobs), kind, g, ctx.seed + len(jobs)))
     out = pmap(part_a_group, jobs)
